@@ -124,6 +124,7 @@ impl Stats {
         self.add("fault.reset_delivered", f.reset);
         self.add("fault.write_error_delivered", f.write_err);
         self.add("fault.transient_read_error", f.read_err_once);
+        self.add("fault.transient_write_error", f.write_err_once);
     }
 }
 
